@@ -274,6 +274,24 @@ macro_rules! stamped {
 }
 stamped!(stamped_a => "stamped a", stamped_b => "stamped b", stamped_c => "stamped c");
 
+/// Named groups that share a snake_case prefix are still separate groups, passed in order.
+#[when(regex = r"^user (?P<user_id>\d+) (?P<user_name>\w+) at (?P<pos_x>\d+),(?P<pos_y>\d+)$")]
+fn prefixed(_: &mut ZooA, id: u32, name: String, x: u8, y: u8) {
+    rec(format!("prefixed({id},{name},{x},{y})"));
+}
+
+/// The same as a slice.
+#[then(regex = r"^users (?P<user_id>\d*) (?P<user_name>\w+)$")]
+fn prefixed_slice(_: &mut ZooA, v: &[String]) {
+    rec(format!("prefixed_slice({})", v.join("|")));
+}
+
+/// A top-level alternation: the anchors bind to the first / last branch only.
+#[given(regex = r"^yes|no$")]
+fn yes_no(_: &mut ZooA) {
+    rec("yes_no()".into());
+}
+
 // ---- ZooB ----------------------------------------------------------------
 
 #[given("a literal step")]
@@ -535,6 +553,31 @@ pub fn entries() -> Vec<Entry> {
         e(0, When, "stamped_a", |t| (t == "stamped a").then(|| Expect::Call("stamped_a()".into()))),
         e(0, When, "stamped_b", |t| (t == "stamped b").then(|| Expect::Call("stamped_b()".into()))),
         e(0, When, "stamped_c", |t| (t == "stamped c").then(|| Expect::Call("stamped_c()".into()))),
+        e(0, When, "prefixed", |t| {
+            let v = toks(t);
+            (v.len() == 5 && v[0] == "user" && digits(v[1]) && word_chars(v[2]) && v[3] == "at").then_some(())?;
+            let (x, y) = v[4].split_once(',')?;
+            (digits(x) && digits(y)).then(|| {
+                if fits::<u32>(v[1]) && fits::<u8>(x) && fits::<u8>(y) {
+                    Expect::Call(format!(
+                        "prefixed({},{},{},{})",
+                        v[1].parse::<u32>().unwrap(),
+                        v[2],
+                        x.parse::<u8>().unwrap(),
+                        y.parse::<u8>().unwrap()
+                    ))
+                } else {
+                    Expect::Fail(None)
+                }
+            })
+        }),
+        e(0, Then, "prefixed_slice", |t| {
+            let rest = t.strip_prefix("users ")?;
+            let (id, name) = rest.split_once(' ')?;
+            ((id.is_empty() || digits(id)) && word_chars(name))
+                .then(|| Expect::Call(format!("prefixed_slice({id}|{name})")))
+        }),
+        e(0, Given, "yes_no", |t| (t.starts_with("yes") || t.ends_with("no")).then(|| Expect::Call("yes_no()".into()))),
         e(1, Given, "b_lit", |t| (t == "a literal step").then(|| Expect::Call("b_lit(7)".into()))),
         e(1, When, "b_re", |t| {
             let n = t.strip_prefix("b ")?;
@@ -587,6 +630,8 @@ pub fn texts(max_tokens: usize) -> Vec<String> {
         "async 7", "async 256", "async x", "result ok", "result err", "result maybe", "alias ok", "alias err", "alias maybe", "io ok", "io err",
         "async result ok", "async result no", "async result two words",
         "parse 12", "parse 300", "parse x", "parse -1", "multi lit", "multi re", "multi expr", "multi", "multi lit ",
+        "user 7 bob at 3,4", "user 7 bob at 300,4", "user x bob at 3,4", "users 7 bob", "users  bob", "users 7",
+        "yes", "no", "yes please", "I say no", "nope", "maybe",
         "stamped a", "stamped b", "stamped c", "stamped d", "ctxdoc w1", "ctxdoc two words", "twice 2", "twice x", "same literal", "same  literal",
         "abc named group", "two words named group", "éa named group", "zoë named group",
         "café 12 crêpes for Chloé", "café 7 crêpes for é", "café 7 crêpes for Zoëé", "cafe 12 crêpes for Chloé",
@@ -773,7 +818,7 @@ pub fn run(a: &ShardArgs) -> serde_json::Value {
         "property": "C19", "tier": a.tier,
         "total_configs": txts.len() * 6, "configs_done": counters.0, "configs_skipped_budget": 0,
         "evaluations": counters.0 + reg, "distinct_nontrivial": counters.1,
-        "rule": format!("a zoo of {} attribute instances on 33 functions for 2 Worlds (sync/async, unit/Result, typed args, slice, #[step] / `step` argument, literal / regex = / expr =, custom Parameter with one and several groups, several attributes on one fn, named group) x every text of <= {} tokens over a 12-token alphabet plus positive / near-miss texts of every entry (prefix, suffix, padding, case) x 3 keywords; non-trivial = lookups that dispatch to a function", es.len(), if a.thorough {5} else {3}),
+        "rule": format!("a zoo of {} attribute instances on 36 functions for 2 Worlds (sync/async, unit/Result, typed args, slice, #[step] / `step` argument, literal / regex = / expr =, custom Parameter with one and several groups, several attributes on one fn, named group) x every text of <= {} tokens over a 12-token alphabet plus positive / near-miss texts of every entry (prefix, suffix, padding, case) x 3 keywords; non-trivial = lookups that dispatch to a function", es.len(), if a.thorough {5} else {3}),
         "exhaustive": true,
         "violations": violations, "samples": samples,
     })
